@@ -26,8 +26,12 @@ class Project:
             self.extra.update(ambient["siblings"])
 
     def materialise(self, box):
-        for rel, d in self.files.items():
-            box.write(rel, d)
+        # (some file systems list a directory in the order its entries were created - tmpfs: newest first -, so the order of creation
+        # decides the order in which the tool walks the tree; it is fixed per project, and differs from project to project)
+        order = sorted(self.files)
+        core.rng_for("creation-order", self.label, len(order), sum(len(d) for d in self.files.values())).shuffle(order)
+        for rel in order:
+            box.write(rel, self.files[rel])
         for rel, other in self.hardlinks.items():
             o = os.path.join(box.proj, other)
             os.makedirs(os.path.dirname(o), exist_ok=True)
